@@ -488,3 +488,93 @@ def gen_extra(thorough: bool) -> Iterator[tuple[str, list[list[Any]]]]:
                     iff = If(if_neg, [nm.h()], br, [(False, [nm.h()], [nm.p()])])
                 yield "loop-in-loop-if-chain", [[Forever([nm.p(), While(inner_neg, nm.h(), [iff])]), Ctl("end")]]
                 yield "loop-in-loop-if-chain", [[Forever([nm.p(), While(inner_neg, nm.h(), [iff, nm.p()]), nm.p()]), Ctl("end")]]
+
+
+def gen_random(thorough: bool) -> Iterator[tuple[str, list[list[Any]]]]:
+    """A fixed pseudo-random sample of deeper mixed programs (nesting up to 3: if chains with || and not, switches with fall-through, default
+    anywhere and grouped cases, forever / while / for with continue and break_loop, labels with jump and call, terminators anywhere).
+    The generator is seeded with constants, so the sample is the same table on every run; it complements the exhaustive families, whose
+    bounds it exceeds in depth and mixture."""
+    import random
+
+    class G:
+        def __init__(self, seed: int) -> None:
+            self.r = random.Random(seed)
+            self.nm = Names()
+            self.labels: list[str] = []
+            self.sw = 0
+
+        def block(self, depth: int, in_loop: bool, in_case: bool, lo: int = 0, hi: int = 3) -> list[Any]:
+            return [self.stmt(depth, in_loop, in_case) for _ in range(self.r.randint(lo, hi))]
+
+        def stmt(self, depth: int, in_loop: bool, in_case: bool) -> Any:
+            r = self.r.random()
+            if depth <= 0 or r < 0.36:
+                k = self.r.random()
+                if in_loop and k < 0.10:
+                    return Ctl("continue")
+                if in_loop and k < 0.20:
+                    return Ctl("break_loop")
+                if k < 0.26 and self.labels:
+                    return Jump(self.r.choice(self.labels)) if self.r.random() < 0.7 else Call(self.r.choice(self.labels))
+                if k < 0.31:
+                    return Ctl(self.r.choice(["return", "end", "hold"]))
+                return self.nm.p()
+            if r < 0.62:
+                hdrs = [self.nm.h()] + ([self.nm.h()] if self.r.random() < 0.2 else [])
+                elifs = []
+                while self.r.random() < 0.3:
+                    elifs.append((self.r.random() < 0.25, [self.nm.h()], self.block(depth - 1, in_loop, in_case)))
+                els = self.block(depth - 1, in_loop, in_case) if self.r.random() < 0.5 else None
+                return If(self.r.random() < 0.25, hdrs, self.block(depth - 1, in_loop, in_case), elifs, els)
+            if r < 0.76:
+                self.sw += 1
+                items: list[Any] = []
+                v = 0
+                for _ in range(self.r.randint(1, 3)):
+                    vals = []
+                    for _ in range(1 if self.r.random() < 0.75 else 2):
+                        v += 1
+                        vals.append(v)
+                    body = self.block(depth - 1, in_loop, True, 0 if items else 0, 2)
+                    if self.r.random() < 0.7:
+                        body.append(Ctl("break"))
+                    items.append(Case(vals, body))
+                if self.r.random() < 0.5:
+                    d = Default(self.block(depth - 1, in_loop, True, 1, 2) + ([Ctl("break")] if self.r.random() < 0.5 else []))
+                    items.insert(self.r.randint(0, len(items)), d)
+                # the compiler rejects a switch that ends in an empty case
+                last = items[-1]
+                if not last.body:
+                    last.body.append(Ctl("break"))
+                return Switch(self.sw, items)
+            if r < 0.86:
+                return Forever(self.block(depth - 1, True, False, 1, 3))
+            if r < 0.94:
+                return While(self.r.random() < 0.3, self.nm.h(), self.block(depth - 1, True, False, 1, 3))
+            return For(self.nm.p(), self.nm.h(), self.nm.p(), self.block(depth - 1, True, False, 1, 2))
+
+        def routine(self, rid: int) -> list[Any]:
+            self.labels = [f"l{rid}_{i}" for i in range(self.r.randint(0, 2))]
+            pending = list(self.labels)
+            out: list[Any] = []
+            for _ in range(self.r.randint(1, 4)):
+                if pending and self.r.random() < 0.5:
+                    out.append(Label(pending.pop(0)))
+                out.append(self.stmt(3, False, False))
+            for lb in pending:
+                out.append(Label(lb))
+                out.append(self.nm.p())
+            out.append(Ctl(self.r.choice(["end", "return", "hold"])))
+            return out
+    from ..engine.sta import show
+    want = 600 if thorough else 80
+    seed = 0
+    while want > 0:
+        g = G(77_000 + seed)
+        seed += 1
+        prog = [g.routine(i) for i in range(g.r.randint(1, 2))]
+        if sum(len(show(r)) for r in prog) > 700:
+            continue  # very large samples cost minutes of evaluation each; the size bound is part of the table's definition
+        want -= 1
+        yield "random-mixed", prog
